@@ -18,6 +18,13 @@ CLAIMED = {
     ),
 }
 
+CLAIMED["C13"] = dict(
+    design="5.4",
+    technique="deterministic simulation: the seeded scheduler decides the arrival order of every slice response at RangeQuery's merge loop (worker pool 1-16); result compared with one unsliced evaluation of a presence model and across schedules; one failing slice injected in a separate configuration",
+    text="The real promapi.RangeQuery runs against a simulated server that answers query_range from a generated presence model; generated (start, end, step) include steps that do not divide 2h, steps above 2h and 4h and ends on/next to slice boundaries. Oracle: for every series and every point of the global step grid, covered-by-a-returned-range iff present in the model; number of ranges = number of maximal runs; ranges disjoint; identical result under 1-3 different response-arrival schedules of the same workload; with one failing slice an error (never a holed result). A scenario that kills or hangs the process is reported as crash-or-hang from the scenario file written before the run.",
+    note="Trusted: as C14; the presence model answers on the request's own grid the way Prometheus does (float seconds parsed to milliseconds). Map iteration order inside MergeRanges is not schedule-controlled (it is followed by a sort today).",
+)
+
 NA = {
     "C01": "pure function of the file bytes (agreement of two acceptors): no schedule, clock, fault or peer for a simulator to own; deciding it is differential input generation, which this task's technique family excludes",
     "C02": "totality of a pure function of (bytes, parser mode): nothing time-, schedule- or fault-dependent in the anchored code",
